@@ -97,6 +97,71 @@ fn multi_spelling_spec(r: &mut Rng) -> TreeSpec {
     spec
 }
 
+/// (class, [database names that collide once letter case is ignored], a type one of them carries): Humanoid
+/// MaxHealth / maxHealth, IntConstrainedValue value / Value, TrussPart style / Style ... An instance of such a class
+/// that carries a THIRD spelling (one the database does not know) is the place where a forgiving, case-blind lookup
+/// would have to choose between two entries of a hash map.
+fn case_collisions() -> &'static Vec<(String, Vec<String>, Option<VariantType>)> {
+    static L: std::sync::OnceLock<Vec<(String, Vec<String>, Option<VariantType>)>> = std::sync::OnceLock::new();
+    L.get_or_init(|| {
+        let db = crate::dbwalk::db();
+        let mut out = vec![];
+        for cname in crate::dbwalk::sorted_class_names(db) {
+            let mut by_fold: BTreeMap<String, Vec<String>> = BTreeMap::new();
+            for k in db.classes[cname].properties.keys() {
+                by_fold.entry(k.to_lowercase()).or_default().push(k.to_string());
+            }
+            for (_, mut names) in by_fold {
+                if names.len() < 2 {
+                    continue;
+                }
+                names.sort();
+                let ty = names.iter().filter_map(|n| crate::dbwalk::travel(db, cname, n)).map(|t| t.declared_ty).find(|t| {
+                    crate::gen_dom::type_ok(Fmt::Xml, *t) && !matches!(t, VariantType::Ref | VariantType::UniqueId | VariantType::SharedString | VariantType::Enum)
+                });
+                // all entries of the group must agree on that type, or the known spellings are left out of the tree
+                let all_same = names.iter().filter_map(|n| crate::dbwalk::travel(db, cname, n)).all(|t| Some(t.declared_ty) == ty && t.wire_ty == t.declared_ty);
+                out.push((cname.to_owned(), names, if all_same { ty } else { None }));
+            }
+        }
+        out
+    })
+}
+
+fn case_collision_spec(r: &mut Rng) -> TreeSpec {
+    let g = crate::gen_value::VGen::xml();
+    let mut spec = TreeSpec::new("DataModel");
+    let list = case_collisions();
+    for i in 0..1 + r.below(3) {
+        let (class, names, ty) = r.pick(list).clone();
+        let id = spec.add(0, &class, &format!("cc{}", i));
+        let flip: String = names[0].chars().map(|c| if c.is_ascii_lowercase() { c.to_ascii_uppercase() } else { c.to_ascii_lowercase() }).collect();
+        let mut spellings = vec![names[0].to_uppercase(), names[0].to_lowercase(), flip];
+        spellings.retain(|s| !names.contains(s));
+        spellings.dedup();
+        // the unknown spelling, sometimes next to one or both of the known ones
+        let sp = r.pick(&spellings).clone();
+        let unknown_value = match ty {
+            Some(t) => g.gen(r, t).unwrap_or(Variant::Int32(7)),
+            None => Variant::Int32(r.below(1000) as i32),
+        };
+        spec.nodes[id].props.push((sp, PV::V(unknown_value)));
+        if let Some(t) = ty {
+            for n in &names {
+                if r.chance(1, 4) {
+                    if let Some(v) = g.gen(r, t) {
+                        spec.nodes[id].props.push((n.clone(), PV::V(v)));
+                    }
+                }
+            }
+        }
+        for k in 0..r.below(6) {
+            spec.nodes[id].props.push((format!("Zz{}", k), PV::V(Variant::Int32(k as i32))));
+        }
+    }
+    spec
+}
+
 /// (class, property, type) triples for which the database records NO default although the property serializes
 /// (Player, BasePart, GuiObject ... at the pinned version): the binary writer has to invent the value it fills
 /// the gaps of a column with, and whatever it invents must not depend on the process.
@@ -157,6 +222,9 @@ fn case(rep: &mut Report, seed: u64, index: u64, table: &mut BTreeMap<String, St
     let spec = if index % 8 == 5 && !no_default_props().is_empty() {
         rep.count("cases.class-without-database-defaults");
         no_default_spec(&mut r)
+    } else if index % 12 == 9 && !case_collisions().is_empty() {
+        rep.count("cases.unknown-spelling-between-two-case-variants");
+        case_collision_spec(&mut r)
     } else if multi {
         multi_spelling_spec(&mut r)
     } else {
